@@ -220,7 +220,12 @@ fn feed_randomly(ctx: &mut Ctx, g: &mut Generator, data: &[u8]) -> String {
         let left = data.len() - pos;
         let k = if big { ctx.rng.range(1, 5000) } else { *ctx.rng.pick(&[1usize, 1, 2, 3, 6, 7, 8, 13, 64, 191, 192, 193]) }.min(left);
         let chunk = &data[pos..pos + k];
-        match ctx.rng.below(9) {
+        match ctx.rng.below(11) {
+            9 | 10 => {
+                let (it, name) = gen::odd_iter(&mut ctx.rng, chunk);
+                g.update_by_iter(it);
+                plan.push_str(&format!("update_by_iter[{}]({}) ", name, k));
+            }
             0 | 1 => {
                 g.update(chunk);
                 plan.push_str(&format!("update({}) ", k));
@@ -315,8 +320,91 @@ pub fn c03(ctx: &mut Ctx) -> R {
     Ok(())
 }
 
+/// Declared size n, fed k bytes (fewer, equal, more) through one update form: every
+/// finalize* is Err(FixedSizeMismatch) iff k != n, and the reference hash when k == n.
+/// Used by the C12 and the C18 explorers (hash_file / hash_stream sit on exactly this).
+pub fn declared_vs_fed(ctx: &mut Ctx, tag: &str) -> R {
+    let (data, desc) = gen::gen_input(&mut ctx.rng, 4);
+    let n = data.len();
+    let ks = [0usize, n.saturating_sub(1), n / 2, n, n + 1, n.saturating_sub(7), n + 7, n.saturating_sub(n.min(192)), 2 * n + 1];
+    for &k in &ks {
+        ctx.input();
+        // the bytes actually fed: a prefix of the data, or the data and some more
+        let mut fed = data.clone();
+        if k <= n {
+            fed.truncate(k);
+        } else {
+            gen::fill(&mut ctx.rng, &mut fed, k - n, 0);
+        }
+        let form = ctx.rng.below(6);
+        let when = ctx.rng.below(3); // declare before, in the middle of, or after feeding
+        let mut plan = String::new();
+        let res = guard(|| {
+            let mut g = Generator::new();
+            let cut = if when == 1 { fed.len() / 2 } else if when == 0 { 0 } else { fed.len() };
+            let feed = |g: &mut Generator, part: &[u8], ctx: &mut Ctx, plan: &mut String| match form {
+                0 => {
+                    g.update(part);
+                    plan.push_str(&format!("update({}) ", part.len()));
+                }
+                1 => {
+                    g.update_by_iter(part.iter().copied());
+                    plan.push_str(&format!("update_by_iter({}) ", part.len()));
+                }
+                2 => {
+                    for &b in part {
+                        g.update_by_byte(b);
+                    }
+                    plan.push_str(&format!("update_by_byte x{} ", part.len()));
+                }
+                3 => {
+                    *g += part;
+                    plan.push_str(&format!("+=slice({}) ", part.len()));
+                }
+                4 => {
+                    for &b in part {
+                        *g += b;
+                    }
+                    plan.push_str(&format!("+=u8 x{} ", part.len()));
+                }
+                _ => {
+                    let (it, name) = gen::odd_iter(&mut ctx.rng, part);
+                    g.update_by_iter(it);
+                    plan.push_str(&format!("update_by_iter[{}]({}) ", name, part.len()));
+                }
+            };
+            feed(&mut g, &fed[..cut], ctx, &mut plan);
+            let r = g.set_fixed_input_size(n as u64);
+            plan.push_str(&format!("set_fixed_input_size({}) ", n));
+            feed(&mut g, &fed[cut..], ctx, &mut plan);
+            if r.is_err() {
+                return Some(("set-fixed-input-size-result", format!("real code: set_fixed_input_size({}) = {:?}\noracle: Ok(())", n, r)));
+            }
+            diff_generator(&g, 0, &fed, k == n)
+        });
+        ctx.checks.extend(GENERATOR_CHECKS);
+        ctx.checks.insert("finalize-after-wrong-declared-size");
+        let d = match res {
+            Ok(d) => d,
+            Err(msg) => Some(("generator-panic", format!("real code: PANICKED: {}\noracle: never panics", msg))),
+        };
+        if let Some((check, what)) = d {
+            return Err(Fail {
+                check,
+                details: format!(
+                    "[{}] declared size {} , bytes actually fed {} ({})\ndata {}: {}\nhistory: {}\n{}",
+                    tag, n, k, if k < n { "fewer than declared" } else if k > n { "more than declared" } else { "as declared" },
+                    desc, show_bytes(&fed), plan, what
+                ),
+            });
+        }
+    }
+    Ok(())
+}
+
 pub fn c12(ctx: &mut Ctx) -> R {
     while ctx.alive() {
+        declared_vs_fed(ctx, "C12: declared size against the bytes fed")?;
         ctx.input();
         let mut log = String::new();
         let res = guard(|| c12_history(ctx, &mut log));
@@ -611,6 +699,12 @@ pub fn c18(ctx: &mut Ctx) -> R {
     let mut round = 0u32;
     while ctx.alive() {
         round += 1;
+        // hash_file is "declare the metadata size, then stream": the fail-closed part of it is the
+        // generator's size-mismatch contract (a file whose metadata disagrees with its content can
+        // only be had from procfs, see files())
+        if round % 4 == 1 {
+            declared_vs_fed(ctx, "C18: what hash_file relies on when the delivered byte count differs from the declared size")?;
+        }
         let max_n = if round % 6 == 0 { 10 } else { 4 };
         let (data, desc) = gen::gen_input(&mut ctx.rng, max_n);
         ctx.input();
